@@ -140,7 +140,7 @@ def run(run, pid):
                     seen_shape.add(sid)
                     ok &= ob(sid, o["holds"], "%s: %s" % (key[0], o["detail"]), {"method": key[0], "detail": o["detail"]})
             if pid == "C02":
-                for o in SH.p5(aut, M.NODES.get(key[0], ()), AST, M.ORDER):
+                for o in SH.p5(aut, M.NODES.get(key[0], ()), AST, M.ORDER) + SH.p5_nothing_dropped(aut):
                     sid = "Parser.%s:P5:%s" % (m.key_text(key), o["id"])
                     if sid in seen_shape:
                         continue
